@@ -35,10 +35,33 @@ PURE_FUNCS = {"len", "ProgressSample", "TaskID", "int", "Task"}
 METHODS = ["advance", "update", "reset", "start_task", "stop_task", "remove_task", "add_task"]
 
 
+class EvList(list):
+    """event list that also feeds the walker's richer `xev` stream"""
+
+    def __init__(self, walker):
+        super().__init__()
+        self.walker = walker
+
+    def append(self, x):
+        super().append(x)
+        self.walker.xemit(x)
+
+    def __iadd__(self, xs):
+        for x in xs:
+            self.append(x)
+        return self
+
+
+GUARD_ARGS = {"total": "G_total", "completed": "G_completed", "advance": "G_advance"}
+
+
 class Walker:
     def __init__(self, fname):
         self.fname = fname
-        self.ev = []
+        self.ev = EvList(self)
+        self.xev = []
+        self.guards = []         # stack: G_total | G_completed | G_advance | G_other
+        self.wr_ctx = (None, None)
         self.task_names = set()
         self.sample_names = set()
         self.popleft_names = set()
@@ -49,6 +72,35 @@ class Walker:
 
     def fail(self, node, why):
         raise Untranslatable(f"progress.{self.fname}:{getattr(node, 'lineno', '?')} {why}")
+
+    def xemit(self, x):
+        """the `xev` stream: the writes to task.completed are told apart (`+= advance` vs `= completed`)
+        and carry the `<arg> is not None` guard they sit under; everything else is XOther / XLocal"""
+        simple = {"Clock": "XClock", "Acq": "XAcq", "Rel": "XRel", "Refresh": "XLocal", "Call": "XLocal"}
+        if x in simple:
+            self.xev.append(simple[x])
+        elif x == "Rd %d" % FIELDS["completed"]:
+            self.xev.append("XRdC")
+        elif x == "Wr %d" % FIELDS["completed"]:
+            kind, val = self.wr_ctx
+            if "G_other" in self.guards or len(self.guards) > 1:
+                raise Untranslatable(f"progress.{self.fname}: write to task.completed under an unrecognised condition")
+            g = self.guards[0] if self.guards else "G_always"
+            if kind == "add" and val == "advance":
+                self.xev.append(f"XAddC {g}")
+            elif kind == "set" and val == "completed":
+                self.xev.append(f"XSetC {g}")
+            else:
+                raise Untranslatable(f"progress.{self.fname}: write to task.completed of an unrecognised value")
+        else:
+            self.xev.append("XOther")
+
+    def guard_of(self, test):
+        if (isinstance(test, ast.Compare) and isinstance(test.left, ast.Name) and len(test.ops) == 1
+                and isinstance(test.ops[0], ast.IsNot) and isinstance(test.comparators[0], ast.Constant)
+                and test.comparators[0].value is None and test.left.id in GUARD_ARGS):
+            return GUARD_ARGS[test.left.id]
+        return "G_other"
 
     # ------------------------------------------------------------- expressions
     def is_self_attr(self, node, name=None):
@@ -214,6 +266,7 @@ class Walker:
                 elif t.id in self.task_names | self.sample_names | self.popleft_names:
                     self.fail(s, "alias rebound")
             self.expr(v)
+            self.wr_ctx = ("set", v.id if isinstance(v, ast.Name) else None)
             self.store(t)
             return
         if isinstance(s, ast.AugAssign):
@@ -221,14 +274,18 @@ class Walker:
             if isinstance(t, ast.Attribute) and isinstance(t.value, ast.Name) and t.value.id in self.task_names:
                 self.ev.append("Rd %d" % FIELDS[t.attr])
                 self.expr(s.value)
+                self.wr_ctx = ("add", s.value.id if isinstance(s.op, ast.Add) and isinstance(s.value, ast.Name) else None)
                 self.ev.append("Wr %d" % FIELDS[t.attr])
                 return
             self.fail(s, "augmented assignment to " + ast.dump(t)[:60])
         if isinstance(s, ast.If):
             self.expr(s.test)
             self.cond_depth += 1
+            self.guards.append(self.guard_of(s.test))
             self.stmts(s.body)
+            self.guards[-1] = "G_other"
             self.stmts(s.orelse)
+            self.guards.pop()
             self.cond_depth -= 1
             return
         if isinstance(s, ast.While):
@@ -249,7 +306,9 @@ class Walker:
             self.expr(s.test)
             self.loop_kind.append(kind)
             self.cond_depth += 1
+            self.guards.append("G_other")
             self.stmts(s.body)
+            self.guards.pop()
             self.cond_depth -= 1
             self.loop_kind.pop()
             if s.orelse:
@@ -307,6 +366,35 @@ def percentage_facts(task_cls):
     return [int(v) for v in vals]
 
 
+def speed_facts(task_cls):
+    """Task.speed uses iter()/next() over the deque, outside the T2 subset.  Its shape is pinned here
+    instead: the statement sequence must be exactly the one the hand model `speed` was written for --
+    guards (not started / no samples / zero time span -> None), time span = last - first timestamp,
+    sum of `.completed` over the samples after skipping SPEED_SKIP of them, quotient.  Emits SPEED_SKIP."""
+    fn = find_func(task_cls.body, "speed")
+    body = [s for s in fn.body if not (isinstance(s, ast.Expr) and isinstance(s.value, ast.Constant))]
+    src = [ast.unparse(s) for s in body]
+    skips = [x for x in src if x == "next(iter_progress)"]
+    rest = [x for x in src if x != "next(iter_progress)"]
+    want = ["if self.start_time is None:\n    return None",
+            "progress = self._progress",
+            "if not progress:\n    return None",
+            "total_time = progress[-1].timestamp - progress[0].timestamp",
+            "if total_time == 0:\n    return None",
+            "iter_progress = iter(progress)",
+            "total_completed = sum((sample.completed for sample in iter_progress))",
+            "speed = total_completed / total_time",
+            "return speed"]
+    if rest != want:
+        diff = [a for a, b in zip(rest, want) if a != b][:1] or ["statement count"]
+        raise Untranslatable("Task.speed: unexpected shape at: " + diff[0][:60])
+    i = src.index("iter_progress = iter(progress)")
+    j = src.index("total_completed = sum((sample.completed for sample in iter_progress))")
+    if any(k < i or k > j for k, x in enumerate(src) if x == "next(iter_progress)"):
+        raise Untranslatable("Task.speed: next() outside the iterator's life")
+    return len(skips)
+
+
 @generator("ProgressLock.v")
 def gen_progress_lock(repo):
     tree, _ = parse(repo, "rich/progress.py")
@@ -314,6 +402,10 @@ def gen_progress_lock(repo):
     out = [HEADER]
     out.append("Inductive ev : Type :=\n| Clock | Acq | Rel | Rd (f : Z) | Wr (f : Z)\n"
                "| PopOld | PopCap | Append | Clear | Elapsed | Refresh | Call.\n\n")
+    out.append("(* finer vocabulary for advance / update / reset: the writes to task.completed told apart, with\n"
+               "   the `<argument> is not None` test they sit under *)\n"
+               "Inductive guard : Type := G_always | G_total | G_completed | G_advance.\n"
+               "Inductive xev : Type :=\n| XClock | XAcq | XRel | XRdC | XAddC (g : guard) | XSetC (g : guard) | XOther | XLocal.\n\n")
     for name, code in sorted(FIELDS.items(), key=lambda kv: kv[1]):
         out.append(f"Definition F_{name.strip('_')} : Z := {code}.\n")
     out.append("\n")
@@ -328,6 +420,8 @@ def gen_progress_lock(repo):
             cap = w.cap
         body = "; ".join(w.ev)
         out.append(f"Definition {m}_events : list ev :=\n  [{body}].\n")
+        if m in ("advance", "update", "reset"):
+            out.append(f"Definition {m}_xevents : list xev :=\n  [{'; '.join(w.xev)}].\n")
         if m in ("advance", "update"):
             if w.append_conditional is None:
                 raise Untranslatable(f"{m}: no sample append found")
@@ -336,6 +430,8 @@ def gen_progress_lock(repo):
     if cap is None:
         raise Untranslatable("no sample cap found")
     out.append(f"Definition MAX_SAMPLES : Z := {zlit(cap)}.\n")
+    out.append(f"(* Task.speed: shape checked against the hand model; samples skipped before the sum *)\n"
+               f"Definition SPEED_SKIP : Z := {zlit(speed_facts(find_class(tree, 'Task')))}.\n")
     zero, factor, hi, lo = percentage_facts(find_class(tree, "Task"))
     out.append(f"Definition PCT_WHEN_NO_TOTAL : Z := {zlit(zero)}.\nDefinition PCT_FACTOR : Z := {zlit(factor)}.\n"
                f"Definition PCT_HI : Z := {zlit(hi)}.\nDefinition PCT_LO : Z := {zlit(lo)}.\n")
